@@ -4,7 +4,8 @@
 (* at a shooting point, for every engine class.                              *)
 (*                                                                           *)
 (* Part 1: the call matrix (engine x zero_momentum x velocity flag of the    *)
-(* source frame x single/multi-frame source) as initial states; Apply states *)
+(* source frame x single/multi-frame source x equal/unequal masses) as       *)
+(* initial states; Apply states *)
 (* what each call must satisfy.  Part 2 (trace specification): recorded real *)
 (* modify_velocities calls are checked clause by clause.                     *)
 (* The distribution clause (zero mean, variance k_B T / m in the engine's    *)
@@ -18,7 +19,8 @@ CONSTANTS Engines
 VARIABLES call, done
 cvars == <<call, done>>
 CInit == /\ done = FALSE
-         /\ call \in [engine : Engines, zero_momentum : BOOLEAN, vel_rev : BOOLEAN, multiframe : BOOLEAN]
+         /\ call \in [engine : Engines, zero_momentum : BOOLEAN, vel_rev : BOOLEAN, multiframe : BOOLEAN,
+                     masses : {"equal", "unequal"}]
 CApply == ~done /\ done' = TRUE /\ UNCHANGED call
 CSpec == CInit /\ [][CApply]_cvars
 
